@@ -115,7 +115,8 @@ def run(ck, ctx):
                      v_.attr[:len(SPEC)] == SPEC and len(v_.attr) == len(SPEC)]
             # the parameter as passed (locals are final; the spectrum parameter is never rebound in the helpers)
             params = [a.arg for a in fi_.node.args.args]
-            arg = next((loc_[p_] for p_ in params if p_ in loc_ and loc_[p_] is not None and loc_[p_].op == "Cfg"), None)
+            ent_ = getattr(loc_, "entry", loc_)
+            arg = next((ent_[p_] for p_ in params if p_ in ent_ and ent_[p_] is not None and ent_[p_].op == "Cfg"), None)
             if arg is None and cands:
                 arg = cands[0]
             if arg is None:
